@@ -13,6 +13,9 @@ pub struct Complaint {
     /// operation failed with which error kind)
     pub kind: String,
     pub detail: String,
+    /// the wire history shows exactly the situation of a known, unrepaired
+    /// defect: the signature is that defect's, independent of the schedule
+    pub diagnosed: bool,
 }
 
 #[derive(Clone, Debug, Default)]
@@ -41,6 +44,7 @@ pub fn judge(scn: &Scn, o: &Outcome) -> Verdict {
         let loc = msg.rsplit(" @ ").next().unwrap_or("").rsplit('/').next().unwrap_or("").to_string();
         v.complaints.push(Complaint {
             class: "panic".into(),
+            diagnosed: false,
             kind: loc,
             detail: format!("turmoil-net panicked in round {}: {msg}", o.rounds),
         });
@@ -53,6 +57,7 @@ pub fn judge(scn: &Scn, o: &Outcome) -> Verdict {
                 class: class.clone(),
                 kind: String::new(),
                 detail: detail.clone(),
+                diagnosed: false,
             });
         }
     }
@@ -61,6 +66,7 @@ pub fn judge(scn: &Scn, o: &Outcome) -> Verdict {
         if d.eof && d.read_off < d.written {
             v.complaints.push(Complaint {
                 class: "eof-early".into(),
+                diagnosed: false,
                 kind: dir.as_str().into(),
                 detail: format!(
                     "{}: reader saw end-of-file after {} bytes although {} bytes were accepted from the writer (silent loss)",
@@ -104,6 +110,7 @@ pub fn judge(scn: &Scn, o: &Outcome) -> Verdict {
             let (op, e) = &errors[0];
             v.complaints.push(Complaint {
                 class: "abort".into(),
+                diagnosed: false,
                 kind: format!("{op}:{e}"),
                 detail: format!(
                     "{} drop(s), holds <= {} round(s) (inside the envelope: retx_max={}, retx_threshold={}), yet {} failed with {} [{}]",
@@ -131,6 +138,7 @@ pub fn judge(scn: &Scn, o: &Outcome) -> Verdict {
             }
             v.complaints.push(Complaint {
                 class: "stall".into(),
+                diagnosed: false,
                 kind: o.pending.join("+"),
                 detail: format!(
                     "{} drop(s), holds <= {} round(s) (inside the envelope); after round {} ({:?}, last fault at round {}) tasks still waiting: {} [{}]",
@@ -146,6 +154,7 @@ pub fn judge(scn: &Scn, o: &Outcome) -> Verdict {
         } else if !all_read {
             v.complaints.push(Complaint {
                 class: "incomplete".into(),
+                diagnosed: false,
                 kind: String::new(),
                 detail: "all tasks finished without error but not every byte and end-of-file was read".into(),
             });
@@ -153,11 +162,65 @@ pub fn judge(scn: &Scn, o: &Outcome) -> Verdict {
     } else if !o.pending.is_empty() && errors.is_empty() {
         v.undetermined = Some("outside-envelope-hang".into());
     }
+    diagnose(scn, o, &errors, &mut v);
     v
 }
 
+/// Attach the stable signature of a known, unrepaired defect to a liveness
+/// complaint when the wire history shows exactly that defect's situation
+/// (see `diag.rs`). The complaint is still reported; it is only identified.
+fn diagnose(scn: &Scn, o: &Outcome, errors: &[(String, String)], v: &mut Verdict) {
+    for c in v.complaints.iter_mut() {
+        if c.class == "stall" {
+            let (mut unfinished, mut explained) = (0, 0);
+            for dir in [Dir::C2S, Dir::S2C] {
+                let d = o.hist.d(dir);
+                if d.eof && d.read_off == scn.dir(dir).total as u64 {
+                    continue;
+                }
+                unfinished += 1;
+                let fin_requested = d.writer_done && matches!(d.shutdown, Some(Ok(())));
+                if o.diag.zero_window_deadlock(dir, d.written, fin_requested) {
+                    explained += 1;
+                }
+            }
+            if unfinished > 0 && explained == unfinished {
+                c.kind = "zero-window-deadlock".into();
+                c.diagnosed = true;
+                c.detail = format!(
+                    "sender idle behind a zero window although the receiver has advertised an open one since (update lost or overtaken; no persist timer) — {}",
+                    c.detail
+                );
+            }
+        } else if c.class == "abort" && !errors.is_empty() {
+            for x in [Dir::C2S, Dir::S2C] {
+                // operations of the side that sends in direction x
+                let own = [
+                    format!("{}-write", x.as_str()),
+                    format!("{}-shutdown", x.as_str()),
+                    format!("{}-read", x.rev().as_str()),
+                ];
+                let only_own_timeouts = errors.iter().all(|(op, e)| own.contains(op) && e.starts_with("TimedOut"));
+                if only_own_timeouts && o.diag.fin_ack_lost_for_good(x, scn.cfg.retx_max) {
+                    c.kind = "closed-peer-ignores-fin".into();
+                    c.diagnosed = true;
+                    c.detail = format!(
+                        "the ACK of the {} side's FIN was emitted by the peer but never delivered; the peer (Closed, no TIME_WAIT) ignored every FIN retransmission until the retransmit budget ran out — {}",
+                        if x == Dir::C2S { "client" } else { "server" },
+                        c.detail
+                    );
+                }
+            }
+        }
+    }
+}
+
 pub fn signature(prop: &str, c: &Complaint, scn: &Scn) -> String {
-    format!("{prop}|{}|{}|{}", c.class, c.kind, scn.canon())
+    if c.diagnosed {
+        format!("{prop}|{}|{}", c.class, c.kind)
+    } else {
+        format!("{prop}|{}|{}|{}", c.class, c.kind, scn.canon())
+    }
 }
 
 /// Minimisation is expensive on a badly broken tree (every scenario fails):
